@@ -17,6 +17,7 @@ import OmbottModel.Drv.Helpers
 import OmbottModel.Drv.RouterListing
 import OmbottModel.Drv.App
 import OmbottModel.Drv.RespHelp
+import OmbottModel.Drv.Upload
 /-! Dispatch of a protocol line to the area handlers.  `State` holds the few models that are
 driven as state machines across lines (router, multipart feed, header store). -/
 namespace Drv
@@ -53,6 +54,7 @@ def step (st : State) (line : String) : State × String :=
     | "rlist" => pure? (RouterListing.handle rest)
     | "app" => pure? (App.handle rest)
     | "resphelp" => pure? (RespHelp.handle rest)
+    | "upload" => pure? (Upload.handle rest)
     | _ => (st, "bad-op")
 
 end Drv
